@@ -248,3 +248,67 @@ func onlyCellUses(cell ssa.Value, refs *[]ssa.Instruction) bool {
 	}
 	return true
 }
+
+// ---------- package-level slice variables that are never reassigned ----------
+
+// globalSliceLen: the length of package-level slice variable g if it is bound exactly once, in the package initialiser,
+// to a slice literal, is never assigned elsewhere in the loaded program and its address is only ever loaded from.
+// (Its ELEMENTS may still be written through the loaded slice; only the length is fixed.)
+func (eng *Engine) globalSliceLen(g *ssa.Global) (int64, bool) {
+	if eng.globLen == nil {
+		eng.globLen = map[*ssa.Global]int64{}
+		bad := map[*ssa.Global]bool{}
+		for _, pkg := range eng.Prog.AllPackages() {
+			for _, m := range pkg.Members {
+				fn, ok := m.(*ssa.Function)
+				if !ok {
+					continue
+				}
+				var fns []*ssa.Function
+				closureTree(fn, &fns)
+				for _, f := range fns {
+					for _, b := range f.Blocks {
+						for _, ins := range b.Instrs {
+							// any operand that is a global, other than as the address of a load / store, escapes it
+							for _, op := range ins.Operands(nil) {
+								gl, ok := (*op).(*ssa.Global)
+								if !ok {
+									continue
+								}
+								switch x := ins.(type) {
+								case *ssa.UnOp:
+									continue
+								case *ssa.Store:
+									if x.Addr == ssa.Value(gl) && x.Val != ssa.Value(gl) {
+										if f.Name() == "init" && f.Pkg == gl.Pkg {
+											if sl, ok := x.Val.(*ssa.Slice); ok && sl.Low == nil && sl.High == nil {
+												if al, ok := sl.X.(*ssa.Alloc); ok {
+													if at, ok := al.Type().Underlying().(*types.Pointer).Elem().Underlying().(*types.Array); ok {
+														if _, dup := eng.globLen[gl]; !dup {
+															eng.globLen[gl] = at.Len()
+															continue
+														}
+													}
+												}
+											}
+										}
+									}
+									bad[gl] = true
+								case *ssa.DebugRef:
+									continue
+								default:
+									bad[gl] = true
+								}
+							}
+						}
+					}
+				}
+			}
+		}
+		for g := range bad {
+			delete(eng.globLen, g)
+		}
+	}
+	n, ok := eng.globLen[g]
+	return n, ok
+}
